@@ -5,7 +5,7 @@ kf = json.load(open(V + '/KNOWN_FINDINGS.json'))['findings']
 out = []
 out.append("## 9. Findings on the unchanged tree (generated from KNOWN_FINDINGS.json)\n")
 fixes = subprocess.run(['git', '-C', '/repo', 'log', '--format=%h %s', 'e70354f..HEAD'], capture_output=True, text=True).stdout.strip().split('\n')
-out.append("`fix:` commits in /repo (%d), each tested against the repository's own tests for the touched area (and the full suite at checkpoints):\n" % len(fixes))
+out.append("`fix:` commits in /repo (%d), each tested against the repository's own tests for the touched area (and the full suite at checkpoints; with all of them applied the baseline command gives 23 failed / 14170 passed, exactly as on the pristine snapshot: the 20 offline pep561 cases, testForIterable, testYieldThrow and testDaemonStatusKillRestartRecheck fail there too; `mypy --config-file mypy_self_check.ini -p mypy -p mypyc` is clean):\n" % len(fixes))
 for l in reversed(fixes):
     out.append("- `%s`" % l)
 out.append("")
